@@ -63,7 +63,8 @@ def make_subclass(tag):
 
 def extension_rules(tag, kind):
     return {'rule': {'is_odd_' + tag: True}, 'type': {'type': 'tiny_' + tag}, 'type-list': {'type': ['integer', 'tiny_' + tag, 'string']}, 'coercer': {'coerce': 'twice_' + tag},
-            'setter': {'default_setter': 'seven_' + tag}, 'check_with': {'check_with': 'small_' + tag}}[kind]
+            'setter': {'default_setter': 'seven_' + tag}, 'check_with': {'check_with': 'small_' + tag},
+            'check_with-list': {'check_with': ['small_' + tag, 'small_' + tag]}}[kind]
 
 
 def plant(schema, path, pkind, tag, kind):
@@ -108,7 +109,7 @@ def run(ctx):
         if not pos:
             continue
         path, pkind, rules = rng.choice(pos)
-        kind = rng.choice(['rule', 'type', 'type-list', 'coercer', 'setter', 'check_with'])
+        kind = rng.choice(['rule', 'type', 'type-list', 'coercer', 'setter', 'check_with', 'check_with-list'])
         if pkind == 'of-definition' and kind in ('coercer', 'setter'):
             kind = 'rule'
         if pkind == 'keysrules' and kind == 'setter':
@@ -155,7 +156,10 @@ def run(ctx):
                 problems = "validate raised %r: the extension is not available at that depth" % (e,)
                 break
             except Exception as e:
+                # nothing may escape from validate() (C03); with an extension planted, an escaping exception means it was not dispatched as at the top level
                 dist["validate_raise_" + type(e).__name__] += 1
+                problems = "validate raised %r with the extension in the schema" % (e,)
+                break
         if problems:
             violations.append({"signature": "availability:%s" % kind, "what": problems + " (%s position)" % pkind, "replay": rp})
         wrong = [c for c in CALLS if c[1] != Sub.__name__ or c[2] != 42]
@@ -202,7 +206,7 @@ def run(ctx):
         except cerberus.SchemaError:
             pass
         # the subclass's own extensions of other kinds still known (tables not clobbered by the sibling)
-        for k2 in ('rule', 'type', 'type-list', 'coercer', 'setter', 'check_with'):
+        for k2 in ('rule', 'type', 'type-list', 'coercer', 'setter', 'check_with', 'check_with-list'):
             try:
                 Sub({'zz': extension_rules(tag, k2)})
             except cerberus.SchemaError as e:
